@@ -101,6 +101,9 @@ def expand(combo, count_obs):
         if k < n:
             out.append(_base(combo, {'crash': {'k': k, 'tear': None, 'when': 'after'}}))
             out.append(_base(combo, {'crash': {'k': k, 'tear': None, 'when': 'interrupt'}}))
+            if muts[k][0] == 'wopen':
+                for lim in (0, 1, 9, 60):
+                    out.append(_base(combo, {'crash': {'k': k, 'tear': None, 'when': 'interrupt', 'wlimit': lim}}))
         if combo['forced']:
             out.append(_base(combo, {'crash': {'k': k, 'tear': None}}, post='delete'))
             out.append(_base(combo, {'crash': {'k': k, 'tear': None}}, post='reforce'))
